@@ -313,14 +313,6 @@ FpEvOK(ev) ==
 
 \* grid construction from special floating-point values (C11):
 \* pts[i] = <<tag, n, d>>, tag 0 number, 1 NaN, 2 +Inf, 3 -Inf, 4 -0.0
-XIsNum(t) == t[1] \in {0, 4}
-XVal(t) == IF t[1] = 4 THEN RZero ELSE R(t[2], t[3])
-XLt(a, b) == CASE a[1] = 1 \/ b[1] = 1 -> FALSE                         \* NaN: every comparison is false
-               [] a[1] = 3 -> b[1] # 3                                   \* -Inf < everything but -Inf
-               [] b[1] = 2 -> a[1] # 2                                   \* everything but +Inf < +Inf
-               [] a[1] = 2 \/ b[1] = 3 -> FALSE
-               [] OTHER -> RLt(XVal(a), XVal(b))
-XGridValid(p) == Len(p) >= 2 /\ \A i \in 1..(Len(p) - 1) : XLt(p[i], p[i + 1])
 FpGridNewOK(ev) ==
   \A k \in {"f", "d", "l"} : IF XGridValid(ev.pts) THEN ev[k] = "ok" ELSE Threw(ev, k)
 
